@@ -253,3 +253,17 @@ def build_prebuild(outdir, repo=None):
     if p1.returncode or p2.returncode:
         raise SystemExit('HARNESS ERROR: go build of cmd/prebuild failed\n%s\n%s' % (o1.decode(), o2.decode()))
     return plain, inst
+
+
+def build_tool(outdir, pkg, name, repo=None):
+    """builds a repo command twice: plain, and with the owned-map-order runtime (no other change)"""
+    repo = repo or C.REPO
+    os.makedirs(outdir, exist_ok=True)
+    ov = make(os.path.join(outdir, 'ov-' + name), repo, with_runtime=True, with_main=False)
+    plain = os.path.join(outdir, name); inst = os.path.join(outdir, name + '-mapx')
+    p1 = subprocess.Popen(['go', 'build', '-o', plain, pkg], cwd=repo, env=C.go_env(), stdout=subprocess.PIPE, stderr=subprocess.STDOUT)
+    p2 = subprocess.Popen(['go', 'build', '-overlay', ov, '-o', inst, pkg], cwd=repo, env=C.go_env(), stdout=subprocess.PIPE, stderr=subprocess.STDOUT)
+    o1 = p1.communicate()[0]; o2 = p2.communicate()[0]
+    if p1.returncode or p2.returncode:
+        raise SystemExit('HARNESS ERROR: go build of %s failed\n%s\n%s' % (pkg, o1.decode(), o2.decode()))
+    return plain, inst
